@@ -161,6 +161,13 @@ F5 ==   { [SelX(From1, <<It(A1, "A"), It(B1, "B")>>, NoExpr) EXCEPT !.order = o,
    \cup { [SelX(From1, <<It(A1, "A"), It(CountStar, "N")>>, NoExpr) EXCEPT !.group = <<A1>>, !.order = o, !.limit = l] :
              o \in {<<OrdE(A1, "asc")>>, <<OrdPos(2, "desc"), OrdPos(1, "asc")>>, <<OrdE(Col("N"), "desc"), OrdE(A1, "desc")>>}, l \in {-1, 1} }
    \cup { [BaseSel(From1) EXCEPT !.order = <<OrdE(A1, "asc")>>, !.where = w, !.limit = l] : w \in {CmpE(">=", A1, L(0)), IsNullE(B1, TRUE)}, l \in {-1, 1} }
+   \* ordering combined with the access paths an index offers for the filter: an IN list that is NOT in ascending order, a
+   \* BETWEEN, an OR of two keys - the order of the answer is the ORDER BY's, whatever order the probes were made in
+   \cup { [BaseSel(From1) EXCEPT !.order = o, !.where = w, !.limit = lm[1], !.offset = lm[2]] :
+             o \in { <<OrdE(A1, "asc")>>, <<OrdE(A1, "desc")>>, <<OrdE(A1, "asc"), OrdE(B1, "desc")>> },
+             w \in { InListE(A1, <<L(1), L(0)>>, FALSE), InListE(A1, <<L(1), L(0), L(1)>>, FALSE), OrE(CmpE("=", A1, L(1)), CmpE("=", A1, L(0))),
+                     BetweenE(A1, L(0), L(1), FALSE) },
+             lm \in { <<-1, -1>>, <<1, -1>>, <<1, 1>> } }
 F5S ==  { [SelX(From2, <<It(C2, "C"), It(A1, "A")>>, NoExpr) EXCEPT !.order = o, !.limit = l] :
              o \in {<<OrdE(C2, "asc")>>, <<OrdE(C2, "desc"), OrdE(A1, "asc")>>, <<OrdPos(1, "desc")>>}, l \in {-1, 1, 2} }
 
@@ -222,6 +229,8 @@ Rw7 == { ExQ(ResInList, TRUE), ExQ(ResInPlain, TRUE) }
 RwGroups == { Rw1(c) : c \in {CmpE("=", T1A, T2A), AndE(CmpE("=", T1A, T2A), CmpE("=", T1B, L(0))), CmpE("<", T1A, T2A)} } \cup {Rw2, Rw3, Rw4, Rw5, Rw6, Rw7}
 F8 == UNION RwGroups \cup {NotInQ, NotExQ}
 
+\* (LIMIT / OFFSET inside a view, CTE or derived table is NOT in this model: EvalQ gives nested blocks their full row bag and
+\* slices are judged only on the outermost query by AcceptRes - a top-N definition would need a deterministic nested sort)
 \* C32: views and CTEs: the same defining query used as a view (V1, created in Setup2), a CTE and a derived table
 ViewDefs == << SelX(From1, <<It(A1, "A"), It(ArE("+", A1, B1), "S")>>, CmpE(">=", A1, L(0))),
                [SelX(From1, <<It(A1, "A"), It(CountStar, "N")>>, NoExpr) EXCEPT !.group = <<A1>>],
